@@ -235,7 +235,7 @@ theorem space_factor_positive (codes : List Int) (w : List Nat) (sf : Int) (h : 
     apply ih
     exact core _ sf h
 
-/-- **Inter-word glue (after fixes/C12-b.patch).** Whenever TeX.2021.1041–§1044 define the glue
+/-- **Inter-word glue** (the code since 2ef677c). Whenever TeX.2021.1041–§1044 define the glue
 for a space (space factor in TeX's range `1..32767`, no dimension overflow), `add_space`
 produces exactly it — `\spaceskip`, `\xspaceskip`, the font's glue and `extra_space`, in all
 branches. -/
@@ -258,6 +258,146 @@ theorem inter_word_glue_spec (tp : TextParams) (f : Font) (sf : Int) (g : Glue)
         simp only [not_or, Int.not_lt, Int.not_le] at hb
         obtain ⟨b1, b2, b3, b4, b5, b6⟩ := hb
         rw [scaleBySf_spec mp f.extra sf b1 b2 b3 b4 b5 b6, ← Option.some.inj h]
+
+/-! ## Interline glue (TeX.2021.679) -/
+
+/-- **Interline glue.** For every vertical list before the paragraph that is empty or whose last
+box has a depth above `ignore_depth`, every sequence of line heights and depths (depths above
+`ignore_depth`: packed boxes have depth ≥ 0) and every `\lineskiplimit`: as long as TeX would not
+fall back to `\lineskip`, the glue the code pushes before each line box is exactly TeX's
+`append_to_vlist` with `\baselineskip=12pt` — nothing before the first box of an empty list,
+`baselineskip − prev_depth − height` otherwise, `prev_depth` being the depth of the box before. -/
+theorem interline_glue_spec (lsl : Int) (v : List VNode) (lines : List (Int × Int × Bool))
+    (hv : v = [] ∨ ∃ d0, firstBox v.reverse = some d0 ∧ d0 > ignoreDepth)
+    (hd : ∀ x ∈ lines, x.2.1 > ignoreDepth)
+    (hg : ∀ g ∈ texInterlines codeBaselineSkip lsl (texPrevDepth v) lines, g ≠ TexGlue.lineskip) :
+    interline v lines = (texInterlines codeBaselineSkip lsl (texPrevDepth v) lines).map TexGlue.toOpt :=
+  interline_tex codeBaselineSkip lsl rfl lines v hv hd hg
+
+/-- Non-vacuity: two cmr10-sized lines after a box of depth 3pt, `\lineskiplimit=0pt`. -/
+example : interline [.box 196608, .other] [(455111, 127431, true), (455111, 0, false)] =
+    [some 134713, some 203890] ∧
+    (∀ g ∈ texInterlines codeBaselineSkip 0 (texPrevDepth [.box 196608, .other])
+        [(455111, 127431, true), (455111, 0, false)], g ≠ TexGlue.lineskip) := by decide
+
+/-- The two boundaries of `interline_glue_spec` are real (both are `TODO`s in the code): after a
+vertical list without any box TeX adds no glue (`prev_depth = ignore_depth`), the code adds
+`12pt − height`; and a line so tall that `d < \lineskiplimit` gets `\lineskip` in TeX, a negative
+`\baselineskip` glue in the code. -/
+example : interline [.other] [(455111, 0, false)] = [some 331321] ∧
+    texInterlines codeBaselineSkip 0 (texPrevDepth [.other]) [(455111, 0, false)] = [.noGlue] := by decide
+example : interline [.box 0] [(900000, 0, false)] = [some (-113568)] ∧
+    texInterlines codeBaselineSkip 0 (texPrevDepth [.box 0]) [(900000, 0, false)] = [.lineskip] := by decide
+
+/-- cmr10's inter-word glue parameters (scaled points). -/
+def cmr10x : Font := { space := 218453, stretch := 109226, shrink := 72818, extra := 72818 }
+
+/-! ## The text front end (`add_text`, `add_word`) -/
+
+/-- What `split_ascii_whitespace` gives (the words the spelling clause is about): no word is
+empty, no word contains a blank, and the words in order are the text without its blanks. -/
+theorem words_of_text (t : List Nat) :
+    (∀ w ∈ splitWs t, w ≠ []) ∧ (∀ w ∈ splitWs t, ∀ c ∈ w, isWs c = false) ∧
+    (splitWs t).flatten = t.filter (fun c => !isWs c) :=
+  ⟨splitWs_nonempty t, splitWs_noWs t, splitWs_flatten t⟩
+
+/-- **The list spells the text.** For every text, every setting of codes and skips, and every
+lig/kern program whose runs stand for their word (`runSpell (run w) = w`: the law property C05
+proves for compiled programs): reading the list `add_text` produces — characters as
+themselves, ligatures as their original characters, kerns and discretionaries as nothing,
+glue as a blank — gives exactly the words of the text, in order. -/
+theorem add_text_spells (run : List Nat → List RunItem) (codes : List Int) (tp : TextParams)
+    (f : Font) (text : List Nat) (hrun : ∀ w, runSpell (run w) = w) :
+    spell ((addText run codes tp f text).map TItem.chars) = splitWs text := by
+  unfold addText spell
+  have hne : ∀ w ∈ splitWs text, (!w.isEmpty) = true := by
+    intro w hw
+    have := splitWs_nonempty text w hw
+    cases w <;> simp_all
+  cases hl : leadWs text
+  · cases hs : splitWs text with
+    | nil => simp [addWords, splitAtGlue]
+    | cons w ws =>
+      rw [addWords_split_false run codes tp f hrun]
+      rw [hs] at hne
+      exact List.filter_eq_self.mpr hne
+  · rw [addWords_split_true run codes tp f hrun]
+    rw [List.filter_cons_of_neg (by simp)]
+    exact List.filter_eq_self.mpr hne
+
+/-- **One glue item per blank run that is followed by a word** — none for trailing blanks, one
+for leading blanks (the code's convention for a text chunk), one between consecutive words
+however long the run of blanks. No hypothesis on the lig/kern program. -/
+theorem add_text_glue_count (run : List Nat → List RunItem) (codes : List Int) (tp : TextParams)
+    (f : Font) (text : List Nat) :
+    ((addText run codes tp f text).filter TItem.isGlue).length =
+      if leadWs text then (splitWs text).length else (splitWs text).length - 1 :=
+  addWords_glue_count run codes tp f (splitWs text) 1000 (leadWs text)
+
+/-- The glue items are, in order, `add_space` at the space factor reached after the words
+before (starting from 1000): together with `space_factor_spec` and `inter_word_glue_spec` this
+is TeX.2021.1034 and §1041–§1044 for the whole text. -/
+theorem add_text_glue_values (run : List Nat → List RunItem) (codes : List Int) (tp : TextParams)
+    (f : Font) (text : List Nat) :
+    glueItems (addText run codes tp f text) =
+      (addTextGlues codes tp f 1000 (leadWs text) (splitWs text)).filterMap id :=
+  addWords_glueItems run codes tp f (splitWs text) 1000 (leadWs text)
+
+/-- The executable text verdict the driver evaluates on the REAL list accepts the model. -/
+theorem text_verdict_accepts_model (run : List Nat → List RunItem) (codes : List Int)
+    (tp : TextParams) (f : Font) (text : List Nat) (hrun : ∀ w, runSpell (run w) = w) :
+    textVerdict (addText run codes tp f text) text = (true, true) := by
+  unfold textVerdict
+  simp [add_text_spells run codes tp f text hrun, add_text_glue_count run codes tp f text]
+
+/-- Explicit hyphens (TeX.2021.1039): in the list of a word, an empty discretionary follows
+exactly the hyphen characters and the ligatures whose original characters end with one. -/
+theorem add_word_hyphens (run : List Nat → List RunItem) (w : List Nat) :
+    addWord run w = (run w).flatMap fun r =>
+      match r with
+      | .char c => if c = 45 then [TItem.char c, .disc] else [.char c]
+      | .kern k => [.kern k]
+      | .lig c orig lb rb =>
+        if orig.getLast? = some 45 then [.lig c orig lb rb, .disc] else [.lig c orig lb rb] := by
+  unfold addWord
+  congr 1
+  funext r
+  cases r <;> simp [addItem] <;> split <;> rfl
+
+/-- Non-vacuity: a run function that satisfies the law (every character as itself). -/
+example : (∀ w, runSpell ((fun w => w.map RunItem.char) w) = w) := by
+  intro w; induction w with
+  | nil => rfl
+  | cons c t ih => simp [runSpell, ih]
+
+example : addText (fun w => if w = [102, 105] then [.lig 12 [102, 105] false false] else w.map RunItem.char)
+      plainSfCodes {} cmr10x [32, 97, 45, 98, 46, 9, 32, 102, 105, 32] =
+    [.glue (.ok { w := 218453, st := 109226, sh := 72818 }), .char 97, .char 45, .disc, .char 98, .char 46,
+     .glue (.ok { w := 291271, st := 327678, sh := 24272 }), .lig 12 [102, 105] false false] := by decide
+
+/-! ## `box linebreak --widths` -/
+
+/-- **The width list of the command line.** Writing the widths as `a, b, c` (fields without
+commas and without blanks at their ends) and splitting as `Linebreak::run` does
+(`split(',')`, `trim`) gives back the fields, in order, one per line width — so by `line_shape`
+and `width_rule` line `i` of the paragraph is packed to the `i`-th field (parsed by C06's
+`parseFromString`), the last one repeating. -/
+theorem widths_option_fields (fs : List (List Nat)) (hne : fs ≠ [])
+    (hc : ∀ f ∈ fs, ∀ c ∈ f, c ≠ 44) (ht : ∀ f ∈ fs, trimWs f = f) :
+    widthFields (joinComma fs) = fs := by
+  rw [widthFields_joinComma fs hne hc]
+  induction fs with
+  | nil => rfl
+  | cons f r ih =>
+    simp only [List.map_cons, ht f (by simp)]
+    congr 1
+    cases r with
+    | nil => rfl
+    | cons g r' =>
+      exact ih (by simp) (fun f' hf' => hc f' (by simp [hf'])) (fun f' hf' => ht f' (by simp [hf']))
+
+example : widthFields (joinComma [[56, 48, 112, 116], [54, 48, 46, 53, 112, 116]]) =
+    [[56, 48, 112, 116], [54, 48, 46, 53, 112, 116]] := by decide
 
 /-! ## Non-vacuity and the behaviour before the repairs -/
 
